@@ -20,8 +20,8 @@
    The theorems of Props/C07.v are about `fixed`; the `_refuted` theorems are about `orig`. *)
 From Coq Require Import ZArith List String Bool.
 Import ListNotations.
-Open Scope string_scope.
-Open Scope Z_scope.
+Local Open Scope string_scope.
+Local Open Scope Z_scope.
 
 Record gate := mkGate {
   gname : string;
